@@ -146,3 +146,62 @@ func H_C16_over() {
 	extra := []int{0, 1, 2}[c%3]
 	hC16over(extra, extra)
 }
+
+// hC16seg: records around the capacity of a segment: one that exactly fills the
+// remaining space, one byte more (goes to a fresh segment), and one that exceeds
+// the capacity of a whole segment (still written to an empty segment); all must
+// round-trip through restart and crash recovery.
+func hC16seg(delta int) {
+	capBytes := 64 // record capacity of a segment beyond the header
+	opts := &Options{FileSystem: fs.Mem, maxSegmentSize: uint32(headerSize + capBytes)}
+	dir := "c16s"
+	db, err := Open(dir, opts)
+	vAssert(err == nil, "C16s.open")
+	if err != nil {
+		return
+	}
+	k0 := []byte{0x01, 0xaa}
+	k1 := []byte{0x02, 0xbb}
+	k2 := []byte{0x03, 0xcc}
+	v0 := vBytes("v0", 8) // record 0: 10+2+8 = 20 bytes, 44 remain
+	// record 1: 10+2+len = 44+delta  (delta -1: fits with a byte to spare, 0: exact fit, +1: rolls over)
+	v1 := vBytes("v1", 44+delta-12)
+	// record 2 exceeds the capacity of a whole segment
+	v2 := vBytes("v2", capBytes+5)
+	vAssert(db.Put(k0, v0) == nil, "C16s.put0")
+	vAssert(db.Put(k1, v1) == nil, "C16s.put1")
+	seg1 := db.datalog.curSeg.id
+	if delta <= 0 {
+		vAssert(seg1 == 0, "C16s.record-that-fits-stays-in-the-segment")
+	} else {
+		vAssert(seg1 == 1, "C16s.record-that-does-not-fit-goes-to-a-fresh-segment")
+		vCover("C16s.rolled-over")
+	}
+	vAssert(db.Put(k2, v2) == nil, "C16s.put2-larger-than-a-segment")
+	check := func(d *DB, tag string) {
+		for i, kv := range [][2][]byte{{k0, v0}, {k1, v1}, {k2, v2}} {
+			g, err := d.Get(kv[0])
+			vAssert(err == nil && g != nil && vEqBytes(g, kv[1]), tag+".get")
+			_ = i
+		}
+		vAssert(d.Count() == 3, tag+".count")
+	}
+	check(db, "C16s.fresh")
+	vAssert(db.Close() == nil, "C16s.close")
+	db, err = Open(dir, opts)
+	vAssert(err == nil, "C16s.reopen")
+	if err != nil {
+		return
+	}
+	check(db, "C16s.restart")
+	fs.VerifDropHandles()
+	db, err = Open(dir, opts)
+	vAssert(err == nil, "C16s.recover")
+	if err != nil {
+		return
+	}
+	check(db, "C16s.recovered")
+	vCover("C16.seg.done")
+}
+
+func H_C16_seg() { hC16seg(vCase()%3 - 1) }
